@@ -398,6 +398,19 @@ impl Endpoint {
         &self.streams
     }
 
+    pub(crate) fn handle_count(&self) -> usize {
+        self.handles.len()
+    }
+
+    pub(crate) fn handle_sid(&self, slot: usize) -> StreamId {
+        self.handles[slot].sid
+    }
+
+    /// Debug dump of the real stream set and flow controller (pointer values masked).
+    pub(crate) fn canon_dump(&self) -> String {
+        strip_addresses(&format!("{:?}|{:?}", self.streams, self.flow))
+    }
+
     /// Assembles one packet (reliable frames, then stream data) and returns its recorded frames.
     pub(crate) fn assemble_frames(&mut self, cap: usize) -> Vec<GuaranteedFrame> {
         let mut pkt = Cap::new(cap);
@@ -1066,7 +1079,7 @@ fn step2kind(script: &[Step], pc: usize) -> StepKind {
     }
 }
 
-fn strip_addresses(s: &str) -> String {
+pub(crate) fn strip_addresses(s: &str) -> String {
     // `Waker { data: 0x…, vtable: 0x… }` and similar pointers differ between replays
     let mut out = String::with_capacity(s.len());
     let b = s.as_bytes();
